@@ -600,6 +600,30 @@ def scope_cases(tier):
                     items[ph].append(_def(t, 'Y', same_type_wrapper(t, 'X')))
                 yield {'order': orders[(len(t) + len(ph)) % len(orders)], 'act': None, 'items': items,
                        'tag': 'self-reference/%s/%s/%s' % (t, ph, variant)}
+    # an instruction fails when it is executed: what follows is skipped, [cleanup] is executed and sees every symbol
+    # that is defined before it in execution order - executed definition or not
+    for stop_phase in ITEM_PHASES:
+        for def_phase in ITEM_PHASES:
+            for def_after in ([True, False] if def_phase == stop_phase else [True]):
+                for use in ['file', 'via-cleanup-def', 'skipped-phase', 'none']:
+                    for order in inc_orders[:2]:
+                        items = {p: [] for p in ITEM_PHASES}
+                        d = _def('string', 'X', S('k'))
+                        if def_phase == stop_phase:
+                            items[stop_phase] = [filler, {'k': 'stop'}, d] if def_after else [d, {'k': 'stop'}, filler]
+                        else:
+                            items[stop_phase] = [filler, {'k': 'stop'}, filler2]
+                            items[def_phase].append(d)
+                        if use == 'file':
+                            items['cleanup'].append(_show('X'))
+                        elif use == 'via-cleanup-def':
+                            items['cleanup'] += [_def('list', 'Y', [S(R('X')), S('t')]),
+                                                 {'k': 'run', 'p': _probe('p1', [S(R('Y'))])}]
+                        elif use == 'skipped-phase':
+                            items['assert'].append(_show('X'))
+                        yield {'order': order, 'act': _probe('act', [S('a')]), 'items': items,
+                               'tag': 'stopped/%s/%s/%s/%s' % (stop_phase, def_phase,
+                                                               'def-after' if def_after else 'def-before', use)}
     # duplicates: same name twice (same or different type), anywhere
     for p1, p2 in itertools.combinations_with_replacement(ITEM_PHASES, 2):
         for t2 in ['string', 'list', 'line-matcher']:
@@ -1114,6 +1138,9 @@ def build_program(draw, max_items, names):
         for ph in draw(st.lists(st.sampled_from(ITEM_PHASES), min_size=1, max_size=2)):
             order.insert(draw(st.integers(0, len(order))), ph)
             cuts.setdefault(ph, []).append(draw(st.integers(0, max(5, max_items - 3))))
+    stop_roll = draw(st.integers(0, 9))  # 0: one instruction fails when it is executed
+    stop_pos = draw(st.integers(0, 11))
+    stop_use = draw(st.integers(0, 2))
     inc = []
     if draw(st.integers(0, 3)) == 0:
         # parts of the case live in included files
@@ -1233,6 +1260,20 @@ def build_program(draw, max_items, names):
                 items[phase].append({'k': 'assert', 't': t, 'e': e})
     if not act_done:
         act = make_act()
+    if stop_roll == 0:
+        # execution stops at one instruction (`$ false`); [cleanup] is executed all the same and may use the symbols
+        # whose definitions are skipped
+        flat = [(ph, i) for ph in ITEM_PHASES for i in range(len(items[ph]) + 1)]
+        ph, i = flat[(stop_pos * 7) % len(flat)]
+        items[ph].insert(i, {'k': 'stop'})
+        if ph != 'cleanup' and stop_use > 0:
+            later = [it for q in ITEM_PHASES[ITEM_PHASES.index(ph):-1]
+                     for j, it in enumerate(items[q]) if it['k'] == 'def' and (q != ph or j > i)]
+            data = [it for it in later if it['t'] in DATA_TYPES]
+            if data:
+                items['cleanup'].append(_show(data[stop_pos % len(data)]['n']))
+            elif later and later[0]['t'] == 'text-transformer':
+                items['cleanup'].append({'k': 'file', 's': {'c': 'str', 's': S('aBc', q='s'), 't': _ref(later[0]['n'])}})
     case = {'order': list(order), 'act': act, 'items': items}
     if cuts:
         case['cuts'] = {ph: sorted(c) for ph, c in sorted(cuts.items())}
